@@ -71,6 +71,7 @@ ASSUMPTIONS = [
     "keyword 'auto'; dates have a four-digit year (glibc strftime('%Y') does not pad smaller years); the schema clause is evaluated "
     "only when every time step fits xs:int (32 bit) — such cases are counted in excluded_ambiguous",
 ]
+EXTRA_MODULES = ["CRProps.T14"]      # translator tie: Gen.SrcC14 (regenerated from the working tree every run) = hand model
 TRUSTED = ["lxml/libxml2 XML Schema validator (the Lean validator is compared with it, not proved equal)"]
 REQUIRED_BUCKETS = ["single", "cooperative", "type:PM", "type:ST", "type:KS", "type:KST", "type:MB", "type:Input", "type:PMInput",
                     "unordered", "schema-checked", "schema-not-applicable", "file-path", "pretty", "compact", "mutant", "reject",
@@ -1502,6 +1503,11 @@ def run(ctx):
         run_case(ctx, gen_case(ctx, every[i] if i < len(every) else None))
     for _ in range(ctx.n(160)):
         run_case(ctx, gen_reject(ctx))
+    if any(f.key.startswith("C14/construct/") for f in ctx.failures):
+        # the code refused admissible solutions: the buckets those cases were generated for cannot be reached.  The refusal itself is
+        # the finding (a concrete failure with a replay), so the coverage gate must not turn it into an infrastructure exit.
+        for b in REQUIRED_BUCKETS:
+            ctx.tag(b)
 
 
 def search(ctx):
